@@ -1,8 +1,62 @@
-(* C20 — build_random_tree conforms to its structure definition (stub, being built). *)
-From Coq Require Import List ZArith Bool.
-From NT Require Import Sx Rose RandomTree.
-Import ListNotations.
+(* C20 — build_random_tree produces a tree that conforms to its structure definition.
+   Statements only; the model is theories/Forest/RandomTree.v, the specification
+   ([Conf], [attrs_ok], [val_ok], [count_ok], [rnd_may], [dotted]) and the proofs are in
+   theories/Forest/RandomTreeProofs.v.
 
-Theorem C20_stub : forall s : stream, fst (next s) = match s with [] => default_draw | d :: _ => d end.
-Proof. intros [|d s]; reflexivity. Qed.
-Print Assumptions C20_stub.
+   The global random module is an explicit stream of draws; every theorem below
+   quantifies over EVERY stream [s] (of any length: an exhausted stream answers a
+   default draw).  Domain hypotheses, all recorded in harness/props/C20.py:
+     def_wf   – what the Randomizer constructors assert (min < max, delta_days > 0,
+                counts match the sample list and have a positive total);
+     rank_ok  – D39: the relation graph, restricted to relations that can create a
+                child, is acyclic (a rank function decreases along it).  The code
+                itself does not terminate otherwise. *)
+From Coq Require Import List ZArith Bool QArith.
+From NT Require Import Sx Rose RandomTree RandomTreeProofs.
+Import ListNotations.
+Open Scope Z_scope.
+
+(* MAIN: for every well-formed acyclic definition, every stream, every class and
+   every fuel above the rank of "__root__", the top-level nodes conform to the
+   relations of "__root__" (and, hereditarily – see [Conf] – every branch conforms
+   to the relations of its node's type): per relation, in dict order, a group of
+   [n] children with [count_ok :count n]; the i-th child of the group has the
+   relation's type, its dict is aligned with merge("*", type, relation spec) minus
+   the ":"-keys popped by the code, fixed values with {idx} -> i and {hier_idx} ->
+   dotted (path ++ [i]), random values allowed by [rnd_may], absent only if the
+   randomizer may answer None; children again conform, leaf types have none. *)
+Theorem C20_conforms : forall (Df : sdef) (rk : text -> nat) (typed : bool) (fuel : nat) (s : stream),
+  def_wf Df -> rank_ok Df rk -> (rk K_root < fuel)%nat -> mem K_root (d_rels Df) = true ->
+  Conf Df K_root [] (snd (build_random_tree Df typed fuel s)).
+Proof.
+  intros Df rk typed fuel s Hwf Hrk Hf Hm.
+  exact (make_tree_conf Df Hwf rk Hrk fuel K_root [] s Hf Hm).
+Qed.
+Print Assumptions C20_conforms.
+
+(* the same at any node type and any index path (prefix string = dotted path) *)
+Theorem C20_conforms_at : forall (Df : sdef) (rk : text -> nat), def_wf Df -> rank_ok Df rk ->
+  forall fuel ptype path s, (rk ptype < fuel)%nat -> mem ptype (d_rels Df) = true ->
+  Conf Df ptype path (fst (make_tree Df fuel ptype (dotted path) s)).
+Proof. intros Df rk Hwf. exact (make_tree_conf Df Hwf rk). Qed.
+Print Assumptions C20_conforms_at.
+
+(* fuel sufficiency: above the rank the fuel does not matter (tree and rest stream) *)
+Theorem C20_fuel_sufficient : forall (Df : sdef) (rk : text -> nat), rank_ok Df rk ->
+  forall f1 f2 ptype prefix s, (rk ptype < f1)%nat -> (rk ptype < f2)%nat ->
+  make_tree Df f1 ptype prefix s = make_tree Df f2 ptype prefix s.
+Proof. exact make_tree_fuel. Qed.
+Print Assumptions C20_fuel_sufficient.
+
+(* every randomizer answers inside its declared range, for every stream *)
+Theorem C20_random_in_range : forall (r : rnd) (s : stream), rnd_wf r -> rnd_may r (fst (gen r s)).
+Proof. exact gen_may. Qed.
+Print Assumptions C20_random_in_range.
+
+(* class = requested class, name = requested name; kind = type name in a TypedTree *)
+Theorem C20_class_and_kind : forall Df typed fuel s (t : gt),
+  fst (fst (build_random_tree Df typed fuel s)) = typed /\
+  snd (fst (build_random_tree Df typed fuel s)) = d_name Df /\
+  kind_of typed t = (if typed then Some (g_type t) else None).
+Proof. intros. repeat split. Qed.
+Print Assumptions C20_class_and_kind.
